@@ -6,7 +6,8 @@ use std::time::Duration;
 /// A timer entry stored in the shared Arena.
 /// It is part of a doubly-linked list within a specific wheel slot.
 pub(crate) struct Timer {
-  pub(crate) laps: usize,
+  /// The tick with which this timer fires.
+  pub(crate) fire_tick: usize,
   pub(crate) key_hash: u64,
   slot_index: usize,
   prev: Option<Index>,
@@ -31,8 +32,12 @@ pub(crate) struct TimerHandle {
 pub(crate) struct TimerWheel {
   wheel: Vec<Mutex<Slot>>,
   timers: Mutex<Arena<Timer>>,
+  /// The next tick to process. Tick `t` covers the time span
+  /// `[epoch + t * tick_duration, epoch + (t + 1) * tick_duration)`.
   current_tick: AtomicUsize,
   tick_duration: Duration,
+  /// Cache time (nanoseconds since the cache epoch) at which this wheel was created.
+  epoch_nanos: u64,
 }
 
 impl TimerWheel {
@@ -46,19 +51,35 @@ impl TimerWheel {
       timers: Mutex::new(Arena::new()),
       current_tick: AtomicUsize::new(0),
       tick_duration,
+      epoch_nanos: crate::time::now_duration().as_nanos() as u64,
     }
   }
 
+  #[inline]
+  fn tick_nanos(&self) -> u64 {
+    (self.tick_duration.as_nanos() as u64).max(1)
+  }
+
+  /// The tick the given cache time falls into.
+  #[inline]
+  fn tick_of(&self, nanos: u64) -> usize {
+    (nanos.saturating_sub(self.epoch_nanos) / self.tick_nanos()) as usize
+  }
+
   pub(crate) fn schedule(&self, key_hash: u64, duration: Duration) -> TimerHandle {
-    let ticks = (duration.as_secs_f64() / self.tick_duration.as_secs_f64()).round() as usize;
+    // The timer must never fire before the entry has really expired (its owner removes the
+    // entry without a second look): it fires with the first tick that begins after the expiry
+    // instant. Ticks are tied to the clock (see `advance`), not to how often maintenance runs.
+    let now = crate::time::now_duration().as_nanos() as u64;
+    let expiry = now.saturating_add(duration.as_nanos() as u64);
     // Load the current tick atomically. Ordering::Relaxed is fine because we don't
     // need to synchronize memory with other operations; we just need the value.
     let current_tick = self.current_tick.load(Ordering::Relaxed);
-    let laps = ticks / self.wheel.len();
-    let slot = (current_tick + ticks) % self.wheel.len();
+    let fire_tick = (self.tick_of(expiry) + 1).max(current_tick);
+    let slot = fire_tick % self.wheel.len();
 
     let timer = Timer {
-      laps,
+      fire_tick,
       key_hash,
       slot_index: slot,
       prev: None,
@@ -118,29 +139,41 @@ impl TimerWheel {
     }
   }
 
+  /// Processes every tick that has begun according to the clock and returns the hashes whose
+  /// timers fired. Calling it more often than the clock ticks does nothing; calling it rarely
+  /// catches up in one go (every slot is visited at most once per call).
   pub(crate) fn advance(&self) -> Vec<u64> {
-    let tick_to_process = self.current_tick.fetch_add(1, Ordering::Relaxed);
-    let slot_index = tick_to_process % self.wheel.len();
+    let now_tick = self.tick_of(crate::time::now_duration().as_nanos() as u64);
+    let mut expired_hashes = Vec::new();
+    let first_tick = self.current_tick.load(Ordering::Relaxed);
+    if first_tick > now_tick {
+      return expired_hashes;
+    }
+    let slots_to_visit = (now_tick - first_tick + 1).min(self.wheel.len());
+    for offset in 0..slots_to_visit {
+      self.process_slot((first_tick + offset) % self.wheel.len(), now_tick, &mut expired_hashes);
+    }
+    self.current_tick.store(now_tick + 1, Ordering::Relaxed);
+    expired_hashes
+  }
 
+  /// Fires the timers of one slot that are due at `now_tick`.
+  fn process_slot(&self, slot_index: usize, now_tick: usize, expired_hashes: &mut Vec<u64>) {
     let mut timers = self.timers.lock();
     let mut slot = self.wheel[slot_index].lock();
 
-    let mut expired_hashes = Vec::new();
     let mut current_opt = slot.head;
     let mut to_remove = Vec::new();
 
-    // First pass: identify timers to remove and update laps.
+    // First pass: identify the timers that are due.
     while let Some(current_index) = current_opt {
-      let timer = &mut timers[current_index];
-      if timer.laps > 0 {
-        timer.laps -= 1;
-        current_opt = timer.next;
-      } else {
+      let timer = &timers[current_index];
+      if timer.fire_tick <= now_tick {
         // Expired. Mark for removal.
         expired_hashes.push(timer.key_hash);
         to_remove.push(current_index);
-        current_opt = timer.next;
       }
+      current_opt = timer.next;
     }
 
     // Second pass: remove the expired timers from the list and arena.
@@ -161,7 +194,5 @@ impl TimerWheel {
       }
       timers.remove(index_to_remove);
     }
-
-    expired_hashes
   }
 }
